@@ -1023,11 +1023,8 @@ push_expansion(const string &input, const CPPManifest *manifest, const YYLTYPE &
     infile->_col_number = loc.first_column;
     infile->_lock_position = true;
 
-    if (!manifest->_has_parameters) {
-      // If the manifest does not use arguments, then disallow recursive
-      // expansion.
-      infile->_ignore_manifest = true;
-    }
+    // Disallow recursive expansion while the replacement is rescanned.
+    infile->_ignore_manifest = true;
 
     infile->_prev_last_c = _last_c;
     infile->_parent = _infile;
@@ -2507,9 +2504,14 @@ expand_manifest(const CPPManifest *manifest, const YYLTYPE &loc) {
                           manifest->_variadic_param, args);
   }
 
-  // Keep track of the manifests we're supposed to ignore.
+  // Keep track of the manifests we're supposed to ignore.  The arguments are
+  // fully expanded before they are substituted, so a function-like macro may
+  // appear in its own arguments; it is only disabled while its replacement
+  // is rescanned (see push_expansion).
   CPPManifest::Ignores ignores;
-  ignores.insert(manifest);
+  if (!manifest->_has_parameters) {
+    ignores.insert(manifest);
+  }
 
   InputFile *infile = _infile;
   while (infile != nullptr) {
